@@ -374,7 +374,7 @@ fn gen_builder(r: &mut Rng) -> String {
             f.start_frame_flag = false;
             f.multi_frame_flag = true;
             f.frame_id = FrameId::CurrentFrameId(nx);
-            let mutated = match r.below(14) {
+            let mutated = match r.below(17) {
                 0 => {
                     f.not_error_flag = !ne;
                     true
@@ -409,6 +409,15 @@ fn gen_builder(r: &mut Rng) -> String {
                 }
                 8 => {
                     f = gen_frame(r, true);
+                    true
+                }
+                9 => {
+                    // one bit of the 12-bit id flipped (ids that agree in the low byte or in the high nibble only)
+                    f.frame_id = FrameId::CurrentFrameId(nx ^ (1 << r.below(12)));
+                    true
+                }
+                10 => {
+                    f.frame_id = FrameId::CurrentFrameId((nx + 256 * (1 + r.below(15)) as u16) & 0xfff);
                     true
                 }
                 _ => false,
@@ -488,10 +497,16 @@ fn dec_str(kind: usize, p: &Packet) -> String {
     };
     let p2 = p.clone();
     if raw_invalid {
-        return match guard(move || matches!(Ev::decode(kind, &p2), Ok(_))) {
+        // the decoder may have transmuted the bytes into an invalid enum: never look at the value, and look at an
+        // error only through its raw bytes (with an unchecked transmute the `Result` itself can be garbage: an
+        // invalid discriminant may alias the niche that encodes `Err`)
+        return match guard(move || Ev::decode(kind, &p2)) {
             None => "panic".into(),
-            Some(true) => "ok(INVALID)".into(),
-            Some(false) => "err(UnknownEnumVariant)".into(),
+            Some(Ok(_)) => "ok(INVALID)".into(),
+            Some(Err(e)) => match ev::cerr_raw(&e) {
+                Some(name) => format!("err({})", name),
+                None => "err(INVALID)".into(),
+            },
         };
     }
     match guard(move || Ev::decode(kind, &p2)) {
@@ -772,10 +787,10 @@ fn gen_some_packet(r: &mut Rng, addr: Option<u16>, maxlen: u64) -> Packet {
 }
 
 /// hostile byte-link history (whole link frames, noise, gaps) followed by two probe packets
-fn gen_byte_history(r: &mut Rng, serial: bool) -> Vec<ByteItem> {
+fn gen_byte_history(r: &mut Rng, serial: bool, faults: bool) -> Vec<ByteItem> {
     let mut segs: Vec<Vec<u8>> = vec![]; // whole link frames or noise
     for _ in 0..r.below(7) {
-        match r.below(11) {
+        match r.below(13) {
             0 => {
                 // arbitrary body of a short length
                 let l = r.below(24) as u8;
@@ -862,6 +877,37 @@ fn gen_byte_history(r: &mut Rng, serial: bool) -> Vec<ByteItem> {
                 let k = r.below(w2.len() as u64 + 1) as usize;
                 segs.extend(w2.into_iter().skip(k));
             }
+            11 => {
+                // a whole packet whose frames carry the reserved header bit (bit 4 of byte 0): receivers ignore it
+                let addr = if r.flip() { Some(7) } else { None };
+                let p = gen_some_packet(r, addr, 40);
+                for f in refenc::frames(&p) {
+                    let mut b = refenc::usart_body(&f);
+                    b[0] |= 0x10;
+                    let u = refenc::cobs(&b);
+                    let mut w = vec![0, u.len() as u8];
+                    w.extend(u);
+                    segs.push(w);
+                }
+            }
+            10 => {
+                // arbitrary well-formed frames nobody's fragmentation would produce (any flags, ids, lengths)
+                for _ in 0..1 + r.below(3) {
+                    let mut f = gen_frame(r, true);
+                    if r.flip() {
+                        f.device_address = 7;
+                    }
+                    if r.below(3) == 0 {
+                        f.data_len = 0;
+                        f.data = [0; 8];
+                    }
+                    if r.below(3) == 0 {
+                        f.start_frame_flag = true;
+                        f.frame_id = FrameId::LastFrameId(r.below(3) as u16);
+                    }
+                    segs.push(refenc::link_frame(&f));
+                }
+            }
             _ => {
                 let p = gen_some_packet(r, None, 30);
                 segs.extend(refenc::wire(&p));
@@ -893,6 +939,13 @@ fn gen_byte_history(r: &mut Rng, serial: bool) -> Vec<ByteItem> {
     if r.below(5) == 0 {
         items.push(ByteItem::WouldBlock);
     }
+    if faults {
+        // device read errors (and end of file on the serial port) at arbitrary positions, also inside a frame body
+        for _ in 0..1 + r.below(3) {
+            let k = r.below(items.len() as u64 + 1) as usize;
+            items.insert(k, if serial && r.below(3) == 0 { ByteItem::Eof } else { ByteItem::Error });
+        }
+    }
     items
 }
 
@@ -907,7 +960,7 @@ fn gen_can_history(r: &mut Rng) -> Vec<CanItem> {
         }
     };
     for _ in 0..r.below(6) {
-        match r.below(7) {
+        match r.below(8) {
             0 => items.push(CanItem::Frame(gen_can(r))),
             1 => {
                 let p = gen_some_packet(r, Some(7), 40);
@@ -945,6 +998,20 @@ fn gen_can_history(r: &mut Rng) -> Vec<CanItem> {
                 push_frames(&mut items, r, w1.into_iter().take(k).collect());
                 let k = r.below(w2.len() as u64 + 1) as usize;
                 push_frames(&mut items, r, w2.into_iter().skip(k).collect());
+            }
+            5 => {
+                for _ in 0..1 + r.below(3) {
+                    let mut f = gen_frame(r, true);
+                    if r.flip() {
+                        f.device_address = 7;
+                    }
+                    if r.below(3) == 0 {
+                        f.start_frame_flag = true;
+                        f.frame_id = FrameId::LastFrameId(r.below(3) as u16);
+                        f.data[0] = 0;
+                    }
+                    items.push(CanItem::Frame(refenc::can(&f)));
+                }
             }
             _ => {
                 let p = gen_some_packet(r, None, 30);
@@ -984,7 +1051,11 @@ fn poll_loop(mut get: impl FnMut() -> Result<Packet, InterfaceError>, remaining:
                 (s, false)
             }
             Ok(Err(InterfaceError::NoPacketReceived)) => ("nothing".to_string(), remaining() == 0),
-            Ok(Err(_)) => ("err".to_string(), false),
+            Ok(Err(e)) => {
+                // the error value may own heap memory (an `io::Error` made by the mock device): release it before measuring
+                drop(e);
+                ("err".to_string(), false)
+            }
         };
         if heap {
             res.push(format!("{}@{}/{}/{}/{}", s, remaining(), alloc::live(), alloc::peak(), plen));
@@ -1068,7 +1139,13 @@ fn gen_tx_packet(r: &mut Rng) -> String {
 }
 
 fn gen_tx(r: &mut Rng, link: &str) -> String {
-    let p = gen_tx_packet(r);
+    // mostly one send; sometimes several sends on the same interface instance (a failed send must not leak into the next)
+    let p = if r.below(3) == 0 {
+        let n = 2 + r.below(2);
+        (0..n).map(|_| text::packet_gen(r.flip(), r.u16(), r.below(1000), *r.pick(&[0usize, 3, 8, 9, 15, 30]))).collect::<Vec<_>>().join("+")
+    } else {
+        gen_tx_packet(r)
+    };
     match link {
         "usart" => {
             let resp: String = (0..r.below(60)).map(|_| if r.below(3) == 0 { '.' } else { 'a' }).collect();
@@ -1095,16 +1172,17 @@ fn gen_tx(r: &mut Rng, link: &str) -> String {
                     _ => format!("w{}", 1 + r.below(6)),
                 })
                 .collect();
-            format!("{} {} {}", p, list(&rs, ","), if r.below(8) != 0 { "o" } else { "!" })
+            let fl: String = (0..1 + r.below(3)).map(|_| if r.below(8) != 0 { 'o' } else { '!' }).collect();
+            format!("{} {} {}", p, list(&rs, ","), fl)
         }
     }
 }
 
-fn send_res(r: Option<Result<(), InterfaceError>>, log: String) -> String {
+fn send_res(r: Option<Result<(), InterfaceError>>) -> &'static str {
     match r {
-        None => "panic".to_string(),
-        Some(Ok(())) => format!("{} ok", log),
-        Some(Err(_)) => format!("{} err", log),
+        None => "panic",
+        Some(Ok(())) => "ok",
+        Some(Err(_)) => "err",
     }
 }
 
@@ -1128,34 +1206,33 @@ fn parse_io_resps(s: &str) -> Option<Vec<IoResp>> {
         .collect()
 }
 
-/// `tx <link> <packet> <responses> [flush]`
+/// `tx <link> <packet[+packet…]> <responses> [flush answers]`: the sends are made one after the other on one instance
 fn exec_tx(t: &[&str]) -> Option<String> {
     let link = *t.first()?;
-    let p = text::parse_packet(t.get(1)?)?;
+    let ps: Vec<Packet> = t.get(1)?.split('+').map(text::parse_packet).collect::<Option<_>>()?;
     let resp = *t.get(2)?;
     match link {
         "usart" => {
             let sh: Shared = Arc::new(Mutex::new(ByteScript { wresp: if resp == "-" { Default::default() } else { resp.chars().collect() }, ..Default::default() }));
             let mut u = Usart::new(UsartDev(sh.clone()));
-            let r = guard(|| u.try_send_packet(&p));
+            let rs: Vec<&str> = ps.iter().map(|p| send_res(guard(|| u.try_send_packet(p)))).collect();
             let log = text::log_bytes(&sh.lock().unwrap_or_else(|e| e.into_inner()).tx);
-            Some(send_res(r, log))
+            Some(format!("{} {}", log, rs.join(",")))
         }
         "can" => {
             let sh = Arc::new(Mutex::new(CanScript { tresp: if resp == "-" { Default::default() } else { resp.chars().collect() }, ..Default::default() }));
             let mut c = Can::new(bxcan::Can::new(CanDev(sh.clone())));
-            let r = guard(|| c.try_send_packet(&p));
+            let rs: Vec<&str> = ps.iter().map(|p| send_res(guard(|| c.try_send_packet(p)))).collect();
             let log = can_log(&sh.lock().unwrap_or_else(|e| e.into_inner()).tx);
-            Some(send_res(r, log))
+            Some(format!("{} {}", log, rs.join(",")))
         }
         "serial" => {
-            let sh: Shared = Arc::new(Mutex::new(ByteScript { io_resp: parse_io_resps(resp)?.into_iter().collect(), flush_ok: *t.get(3)? == "o", ..Default::default() }));
+            let fl: Vec<bool> = t.get(3)?.chars().map(|c| c == 'o').collect();
+            let sh: Shared = Arc::new(Mutex::new(ByteScript { io_resp: parse_io_resps(resp)?.into_iter().collect(), flush_answers: fl.into_iter().collect(), ..Default::default() }));
             let mut s = Serial::new(Box::new(SerialDev(sh.clone())));
-            let r = guard(|| s.try_send_packet(&p));
+            let rs: Vec<&str> = ps.iter().map(|p| send_res(guard(|| s.try_send_packet(p)))).collect();
             let g = sh.lock().unwrap_or_else(|e| e.into_inner());
-            let log = format!("{}/f{}", text::log_bytes(&g.tx), g.flushes);
-            drop(g);
-            Some(send_res(r, log))
+            Some(format!("{}/f{} {}", text::log_bytes(&g.tx), g.flushes, rs.join(",")))
         }
         _ => None,
     }
@@ -1207,7 +1284,7 @@ fn gen_packet_list(r: &mut Rng, i: u64) -> String {
 
 /// send the packets through the real sender into a recording device; returns the recorded wire
 fn record_bytes(link: &str, ps: &[Packet]) -> Option<Vec<u8>> {
-    let sh: Shared = Arc::new(Mutex::new(ByteScript { flush_ok: true, ..Default::default() }));
+    let sh: Shared = Arc::new(Mutex::new(ByteScript::default()));
     let ok = guard(|| {
         if link == "usart" {
             let mut u = Usart::new(UsartDev(sh.clone()));
@@ -1299,7 +1376,12 @@ fn gen_e2e(r: &mut Rng) -> String {
     let hs: String = (0..r.below(5)).map(|_| if r.flip() { 'c' } else { 'o' }).collect();
     let n = r.below(6);
     let evs: Vec<String> = (0..n)
-        .map(|_| {
+        .map(|j| {
+            if j == 0 && r.below(40) == 0 {
+                // a data event near the 4096-frame limit (its packet is the payload plus 6 header bytes)
+                let len = *r.pick(&[28666usize, 28660, 14331, 14330, 20000, 1786, 1787]);
+                return format!("k4:{:04x}:{:04x}:{:04x}:g{}x{}", *r.pick(&[b, 0xffff, 0x1234]), r.u16(), len, r.below(1000), len);
+            }
             let mut e = Ev::gen(r.below(16) as usize, r);
             if let Ev::Data(ref mut d) = e {
                 d.data_len = d.data.len() as u16;
@@ -1383,7 +1465,7 @@ fn exec_e2e(t: &[&str]) -> Option<String> {
         let (r1, r2) = (rx.clone(), rx.clone());
         status = run_node_b!(Can::new(bxcan::Can::new(CanDev(rx.clone()))), || r1.lock().unwrap_or_else(|e| e.into_inner()).rx.len(), || r2.lock().unwrap_or_else(|e| e.into_inner()).dry_reads = 0);
     } else {
-        let sh: Shared = Arc::new(Mutex::new(ByteScript { flush_ok: true, ..Default::default() }));
+        let sh: Shared = Arc::new(Mutex::new(ByteScript::default()));
         let sent = guard(|| {
             if link == "usart" {
                 let mut pa = Protocol::new(a, Usart::new(UsartDev(sh.clone())));
@@ -1445,11 +1527,11 @@ impl Gen {
             "ev_rt" => format!("ev_rt {}", gen_event_text(r, i)),
             "ev_dec" => format!("ev_dec {}", gen_ev_dec(r, i, &self.sweep)),
             "ev_cross" => format!("ev_cross {}", gen_ev_cross(r, i)),
-            "rx_usart" => format!("rx usart {}", byte_script(&gen_byte_history(r, false))),
-            "rx_serial" => format!("rx serial {} {}", byte_script(&gen_byte_history(r, true)), 1 + r.below(5)),
+            "rx_usart" => format!("rx usart {}", byte_script(&gen_byte_history(r, false, false))),
+            "rx_serial" => format!("rx serial {} {}", byte_script(&gen_byte_history(r, true, false)), 1 + r.below(5)),
             "rx_can" => format!("rx can {}", can_script(&gen_can_history(r))),
-            "rxh_usart" => format!("rxh usart {}", byte_script(&gen_byte_history(r, false))),
-            "rxh_serial" => format!("rxh serial {} {}", byte_script(&gen_byte_history(r, true)), 1 + r.below(5)),
+            "rxh_usart" => format!("rxh usart {}", byte_script(&gen_byte_history(r, false, i % 3 == 0))),
+            "rxh_serial" => format!("rxh serial {} {}", byte_script(&gen_byte_history(r, true, i % 3 == 0)), 1 + r.below(5)),
             "rxh_can" => format!("rxh can {}", can_script(&gen_can_history(r))),
             "tx_usart" => format!("tx usart {}", gen_tx(r, "usart")),
             "tx_can" => format!("tx can {}", gen_tx(r, "can")),
